@@ -208,6 +208,7 @@ var vMonitors = map[string]VMonitor{}
 
 type VExploreCfg struct {
 	Monitors   []string
+	Focused    bool // deep BFS tier: focused mutator alphabet, client lines and DeleteSession only, time-abstracted keys
 	FullAlpha  bool
 	EmitNext   bool
 	Deadline   time.Time
@@ -254,14 +255,21 @@ func vLiveSessions(i *IRCServer) []robust.Id {
 }
 
 // vEntriesFor enumerates every entry of the alphabet that can follow the state of `in`.
-func vEntriesFor(in *VInst, full bool) []VEntry {
+func vEntriesFor(in *VInst, full bool) []VEntry { return vEntriesForAlpha(in, full, false) }
+
+func vEntriesForAlpha(in *VInst, full, focused bool) []VEntry {
 	i := in.Srv
 	now := in.Now()
 	next := in.NextId()
 	var es []VEntry
-	client := vClientLines(now+1e9, full)
-	if !full {
-		client = vReduce(client)
+	var client []VLine
+	if focused {
+		client = vFocusedLines()
+	} else {
+		client = vClientLines(now+1e9, full)
+		if !full {
+			client = vReduce(client)
+		}
 	}
 	ids := vLiveSessions(i)
 	for _, id := range ids {
@@ -270,13 +278,24 @@ func vEntriesFor(in *VInst, full bool) []VEntry {
 		}
 		s := i.sessions[id]
 		lines := client
-		if s.Server {
+		if s.Server && focused {
+			lines = vFocusedServiceLines(vPseudoNicks(i, id.Id))
+		} else if s.Server {
 			lines = vServiceLines(vPseudoNicks(i, id.Id))
 			if !full {
 				lines = vReduce(lines)
 			}
 		}
 		for _, l := range lines {
+			if s.Server && strings.HasPrefix(l.Data, "SVSNICK ") {
+				// the property quantifies over SVSNICK onto FREE nicknames only (services never rename a
+				// user onto a nickname somebody owns; the server does not check it)
+				if f := strings.Fields(l.Data); len(f) >= 3 {
+					if _, taken := i.nicks[NickToLower(f[2])]; taken {
+						continue
+					}
+				}
+			}
 			dt := int64(time.Second)
 			if l.Dt > 0 {
 				dt = int64(l.Dt)
@@ -295,6 +314,14 @@ func vEntriesFor(in *VInst, full bool) []VEntry {
 	i.ConfigMu.RLock()
 	rev := i.Config.Revision
 	i.ConfigMu.RUnlock()
+	if focused {
+		for _, sid := range ids {
+			if sid.Reply == 0 {
+				es = append(es, VEntry{Type: robust.DeleteSession, Id: next, Session: sid, Data: "bye", UnixNano: now + int64(time.Second)})
+			}
+		}
+		return es
+	}
 	for _, e := range vNonLineEntries(ids, rev) {
 		if e.Type == robust.DeleteSession {
 			e.Data = vSanitize(e.Data)
@@ -342,8 +369,14 @@ func VerifExplore(items []VWork, cfg VExploreCfg) *VResult {
 		res.Replays++
 		res.States++
 		pre := vView(in)
-		res.Keys = append(res.Keys, vKey(VerifDump(in.Srv, VerifDumpOpts{RelTime: true, RelNow: in.Now()})))
-		entries := vEntriesFor(in, cfg.FullAlpha)
+		keyOpts := func(now int64) VerifDumpOpts {
+			if cfg.Focused {
+				return VerifDumpOpts{NoTimes: true, NoStamps: true}
+			}
+			return VerifDumpOpts{RelTime: true, RelNow: now}
+		}
+		res.Keys = append(res.Keys, vKey(VerifDump(in.Srv, keyOpts(in.Now()))))
+		entries := vEntriesForAlpha(in, cfg.FullAlpha, cfg.Focused)
 		for _, e := range entries {
 			st := in.saveStamps(e.Session)
 			step := in.Apply(e)
@@ -374,7 +407,7 @@ func VerifExplore(items []VWork, cfg VExploreCfg) *VResult {
 			}
 			res.Mutators++
 			if cfg.EmitNext {
-				key := vKey(VerifDump(in.Srv, VerifDumpOpts{RelTime: true, RelNow: in.Now()}))
+				key := vKey(VerifDump(in.Srv, keyOpts(in.Now())))
 				if !seenNext[key] {
 					seenNext[key] = true
 					res.Next = append(res.Next, VNext{Work: VWork{Scenario: w.Scenario, Extra: append(append([]VEntry(nil), w.Extra...), e)}, Key: key})
@@ -422,6 +455,7 @@ func VerifWorkerMain() error {
 	cfg := VExploreCfg{
 		Monitors:   strings.Split(os.Getenv("VERIF_MONS"), ","),
 		FullAlpha:  os.Getenv("VERIF_ALPHA") != "reduced",
+		Focused:    os.Getenv("VERIF_ALPHA") == "focused",
 		EmitNext:   os.Getenv("VERIF_EMIT") == "1",
 		MaxSamples: 6,
 	}
